@@ -191,6 +191,16 @@ Proof.
     destruct (l_obj l) as [o|].
     + destruct (o_state o =? 2); injection I as <- <-; (split; [repeat split; assumption|]); [apply fail_ok, Hl|exact Hl].
     + injection I as <- <-. split; [repeat split; assumption|apply fail_ok, Hl].
+  - (* MRevoke *)
+    destruct (active l); [|injection I as <- <-; split; [repeat split; assumption|exact Hl]].
+    destruct (l_obj l) as [o|].
+    + destruct (o_state o =? 2); injection I as <- <-; (split; [repeat split; assumption|]); [exact Hl|apply fail_ok, Hl].
+    + injection I as <- <-. split; [repeat split; assumption|apply fail_ok, Hl].
+  - (* MUse *)
+    destruct (active l); [|injection I as <- <-; split; [repeat split; assumption|exact Hl]].
+    destruct (l_obj l) as [o|].
+    + destruct (o_state o =? 2); injection I as <- <-; (split; [repeat split; assumption|]); [exact Hl|apply fail_ok, Hl].
+    + injection I as <- <-. split; [repeat split; assumption|apply fail_ok, Hl].
   - (* MAttrs *)
     destruct (active l); injection I as <- <-; (split; [repeat split; assumption|]); [|exact Hl].
     unfold loc_ok. simpl. rewrite Sa. auto.
